@@ -42,6 +42,15 @@ fn solo_std(rep: &mut Report, property: &str, tier: Tier, with_aggregation: bool
         solo::run(rep, property, "blocks+payload", sc);
     }
     if with_aggregation {
+        // a committee with a listed member that has no voting rights (stake 0)
+        {
+            let mut sc: SoloCfg = solo::default_cfg(2, 2, tier);
+            sc.stakes = vec![1, 1, 1, 1, 0];
+            sc.with_votes = true;
+            sc.with_timeouts = true;
+            sc.max_depth = tier.pick(4, 5);
+            solo::run(rep, property, "zero-stake-member", sc);
+        }
         for &n in &nodes {
             // individual votes and timeouts of the others as well (smaller round bound)
             let mut sc: SoloCfg = solo::default_cfg(n, 2, tier);
